@@ -304,20 +304,18 @@ def permanent_laplace_exact(mat, rows, cols, tables=None):
     return out
 
 
-def glynn_scale(absmat, rows, cols):
-    """sum over all sign patterns of |weight * prod_j (sum_i +-a_ij)^{c_j}| / 2^(n-1) for
-    the non-negative matrix |A| -- an upper bound of the sum of the absolute values of the
-    addends of ANY evaluation of the Glynn/BBFG formula (the one the documentation says is
-    implemented); eps * n * this is the a-priori rounding error scale of that formula.
+def glynn_scale(cmat, rows, cols):
+    """sum over all sign patterns delta in {+1,-1}^n of |prod_j (sum_i delta_i a_ij)^{c_j}|
+    / 2^n (patterns grouped by the number k_i of minus signs inside each repeated row, with
+    weight prod_i C(r_i, k_i)) -- the sum of the absolute values of the addends of the
+    Glynn/BBFG formula, which is what the documentation says is implemented; eps * n * this
+    is the a-priori rounding error scale of that formula.  ``cmat``: complex floats.
     Floats (it is a scale, not a value)."""
     n = sum(rows)
     if n == 0:
         return 1.0
-    rng = [range(r + 1) for r in rows]
     total = 0.0
-    # the formula fixes one delta to +1; by symmetry the full sum over all patterns is twice
-    # the restricted one, so sum over everything and divide by 2^n
-    for ks in itertools.product(*rng):
+    for ks in itertools.product(*[range(r + 1) for r in rows]):
         w = 1.0
         for r, k in zip(rows, ks):
             w *= math.comb(r, k)
@@ -326,9 +324,8 @@ def glynn_scale(absmat, rows, cols):
             if c:
                 s = 0.0
                 for i, (r, k) in enumerate(zip(rows, ks)):
-                    # worst case over the unknown phases: absolute values add
-                    s += abs(r - 2 * k) * absmat[i][j]
-                p *= s**c
+                    s += (r - 2 * k) * cmat[i][j]
+                p *= abs(s) ** c
         total += w * p
     return total / 2.0**n
 
@@ -366,10 +363,8 @@ class Matchings:
             self._memo[labels] = G_ZERO
             return G_ZERO
         seen = {}
-        for pos, u in enumerate(rest):
+        for u in rest:
             seen[u] = seen.get(u, 0) + 1
-            if seen[u] > 1:
-                continue
         for u, mult in seen.items():
             w = self.num[first][u]
             if w == G_ZERO:
@@ -397,20 +392,21 @@ def hafnian_exact(mat, occ):
 
 
 def loop_hafnian_exact(mat, diag, occ):
-    """lhaf(filldiag(A, diag) reduced by occ).  ``diag`` = (list of Gaussian ints, den2).
-    Not homogeneous in a single denominator, so the matrix and the diagonal are first
-    brought to Gaussian integers by scaling: A -> den^2... instead both are passed over
-    the SAME denominator ``den`` (caller's responsibility) and the value is computed with
-    Fractions directly."""
+    """lhaf(filldiag(A, diag) reduced by occ) as (re, im) Fractions.  ``mat`` = (num, den),
+    ``diag`` = (list of Gaussian ints, den).  The loop hafnian is not homogeneous in one
+    denominator, so the recursion runs on Fractions directly."""
     num, den = mat
     dnum, dden = diag
-    # scale: with A = N/den and D = M/dden, substitute A' = N * dden^2, D' = M * den * dden... simpler
-    # and safer: run the recursion on Fractions.
     m = _FracMatchings(
-        [[(Fraction(e[0], den), Fraction(e[1], den)) for e in row] for row in num],
-        [(Fraction(e[0], dden), Fraction(e[1], dden)) for e in dnum],
+        [[_FG(Fraction(e[0], den), Fraction(e[1], den)) for e in row] for row in num],
+        [_FG(Fraction(e[0], dden), Fraction(e[1], dden)) for e in dnum],
     )
-    return m.value(occ)
+    v = m.value(occ)
+    return (Fraction(v[0]), Fraction(v[1]))
+
+
+def _FG(re, im):
+    return (re, im)
 
 
 class _FracMatchings(Matchings):
